@@ -242,7 +242,11 @@ Section Regex.
     destruct at0; cbn [negb] in H.
     2:{ destruct (x_debug x); [discriminate|]. injection H as <-. contradiction. }
     destruct (Nat.eq_dec mlen 0) as [->|Hm].
-    { unfold cw_has_word, cw_single in H. rewrite Hassert in H. cbn in H. discriminate. }
+    { destruct OF.regex_ignores_empty_match; cbn [andb Nat.eqb] in H.
+      - injection H as <-. contradiction.
+      - unfold cw_has_word, cw_single in H. rewrite Hassert in H. cbn in H. discriminate. }
+    replace (Nat.eqb mlen 0) with false in H by (symmetry; apply Nat.eqb_neq; exact Hm).
+    rewrite andb_false_r in H.
     assert (Hpos : forall l, In l (map node_len result) -> (0 < l)%nat).
     { intros l Hl. apply in_map_iff in Hl. destruct Hl as [n [<- Hn]]. destruct (Hres n Hn). unfold node_len. lia. }
     pose proof (created_words_sound_generic Hcmp Hmax (map node_len result) other mlen Hcw Hpos ltac:(lia)) as HS.
